@@ -103,7 +103,7 @@ theorem open_blocks_tracked (papply : P → Assoc K V → Assoc K V) (s : State 
     (c' = c → match op with
       | .enter kw => ∃ f, f.kw = kw ∧ (step papply s c op).stacks c = f :: s.stacks c
       | .exit => (step papply s c op).stacks c = (s.stacks c).tail
-      | .raise k => (step papply s c op).stacks c = (s.stacks c).drop k
+      | .raise k _ => (step papply s c op).stacks c = (s.stacks c).drop k
       | _ => (step papply s c op).stacks c = s.stacks c) := by
   refine ⟨fun h => (step_other papply s c c' op (Ne.symm h) hc).2, fun _ => step_self_stack papply s c op hc⟩
 
@@ -120,24 +120,38 @@ theorem restored_on_exit (papply : P → Assoc K V → Assoc K V) (s : State K V
   unfold ctxGet ContextVars.get
   rw [hI'.value c, hI.value c, hs, (run_n_bases papply t s).2 c hc]
 
-/-- a `with` block left normally or by an exception is balanced when its body is -/
-theorem block_balanced (c : Nat) (kw : Assoc K V) (body : List (Nat × Op K V P))
+/-- a `with` block left normally or by an exception OF ANY KIND (`Exception`, or a `BaseException`
+such as KeyboardInterrupt / SystemExit / GeneratorExit / asyncio.CancelledError) is balanced when its
+body is – so `restored_on_exit` applies to it -/
+theorem block_balanced (c : Nat) (kw : Assoc K V) (body : List (Nat × Op K V P)) (kind : ExitKind)
     (hb : Balanced c 0 body) :
     Balanced c 0 ((c, Op.enter kw) :: (body ++ [(c, Op.exit)])) ∧
-    Balanced c 0 ((c, Op.enter kw) :: (body ++ [(c, Op.raise 1)])) := by
+    Balanced c 0 ((c, Op.enter kw) :: (body ++ [(c, Op.raise 1 kind)])) := by
   have h1 : Balanced (K := K) (V := V) (P := P) c 1 [(c, Op.exit)] := by simp [Balanced]
-  have h2 : Balanced (K := K) (V := V) (P := P) c 1 [(c, Op.raise 1)] := by simp [Balanced]
+  have h2 : Balanced (K := K) (V := V) (P := P) c 1 [(c, Op.raise 1 kind)] := by simp [Balanced]
   constructor
   · simp only [Balanced, if_true]; simpa using balanced_append c body _ 0 1 hb h1
   · simp only [Balanced, if_true]; simpa using balanced_append c body _ 0 1 hb h2
 
-/-- an exception propagating out of `k` blocks is `k` times `finally: context.reset(token)` -/
-theorem raise_eq_exits (papply : P → Assoc K V → Assoc K V) (s : State K V P) (c k : Nat) :
-    step papply s c (.raise k) = run papply s (List.replicate k (c, Op.exit)) := by
+/-- `restored_whatever_the_exception`: leaving a block by an exception of ANY kind does to the
+context exactly what leaving it normally does – `context.reset(token)` runs on every path
+(this is where the regenerated `Gen.resetOn` enters: with `except Exception: reset` instead of
+`finally: reset` the statement is false and the build fails) -/
+theorem restored_whatever_the_exception (s : State K V P) (c : Nat) (kind : ExitKind) :
+    exitOne s c kind = exitOne s c .normal := by
+  unfold exitOne
+  simp [resets_always kind, resets_always ExitKind.normal]
+
+/-- an exception of any kind propagating out of `k` blocks is `k` times a normal exit -/
+theorem raise_eq_exits (papply : P → Assoc K V → Assoc K V) (s : State K V P) (c k : Nat)
+    (kind : ExitKind) :
+    step papply s c (.raise k kind) = run papply s (List.replicate k (c, Op.exit)) := by
   simp only [step]
   induction k generalizing s with
   | zero => rfl
-  | succ k ih => simp only [exitN, List.replicate_succ, run, step]; exact ih _
+  | succ k ih =>
+    simp only [exitN, List.replicate_succ, run, step]
+    rw [restored_whatever_the_exception s c kind]; exact ih _
 
 /-- `exit_never_raises`: in no reachable state does `context.reset(token)` fail (token of another
 context, token used twice): no trace ever produces an error event. -/
@@ -260,14 +274,14 @@ context has a block open; the invariant's hypotheses are met and the final layer
 example :
     let t : List (Nat × Op Nat Nat Nat) :=
       [(0, .addHandler), (0, .configure (some [(1, 10), (2, 20)]) none), (0, .enter [(1, 11)]),
-       (0, .spawn true), (1, .enter [(2, 22)]), (0, .raise 1), (0, .bind 0 [(3, 33)]),
+       (0, .spawn true), (1, .enter [(2, 22)]), (0, .raise 1 .baseException), (0, .bind 0 [(3, 33)]),
        (1, .log 1 [(3, 34)]), (1, .exit), (1, .log 0 []), (0, .log 0 [])]
     (run (fun _ x => x) (init : State Nat Nat Nat) t).out =
       [.delivered 1 0 [(1, 11), (2, 22), (3, 34)], .delivered 1 0 [(1, 11), (2, 20)],
        .delivered 0 0 [(1, 10), (2, 20)]] := by rfl
 
 example : Balanced (K := Nat) (V := Nat) (P := Nat) 0 0
-    [(0, .enter [(1, 1)]), (1, .enter [(1, 2)]), (0, .enter [(2, 2)]), (0, .raise 2), (1, .exit)] := by
+    [(0, .enter [(1, 1)]), (1, .enter [(1, 2)]), (0, .enter [(2, 2)]), (0, .raise 2 .baseException), (1, .exit)] := by
   simp [Balanced]
 
 end C12
